@@ -673,8 +673,10 @@ class IkeSa(object):
         payload_ke = response.get_payload(Payload.Type.KE, encrypted)
 
         # select the peers proposal.
-        if not payload_sa.proposals[0].is_subset(self.chosen_proposal):
-            raise NoProposalChosen('Responder proposal is not a subset of what we sent')
+        # exactly one transform of every type we offered, each of them taken from our offer (as for CHILD_SAs)
+        intersection = self.chosen_proposal.intersection(payload_sa.proposals[0])
+        if intersection is None or intersection != payload_sa.proposals[0]:
+            raise NoProposalChosen('Responder proposal is not a complete choice from what we sent')
         self.chosen_proposal = payload_sa.proposals[0]
 
         # update peer spi (take it from the payload SA if old_sa_d is not none ie. IKE_SA rekey)
